@@ -19,7 +19,7 @@ ANCHOR_FUNCS = ["Data.__init__", "Data._get_common_indices"]
 
 
 def plan(tier, seed):
-    n = 6 if tier == "quick" else 160
+    n = 20 if tier == "quick" else 200
     return [{"seed": seed, "k": k, "n": n} for k in range(16)]
 
 
